@@ -18,9 +18,10 @@ Proved here, for **all** documents (no bound on the number or length of lines, a
 
 * `C06_wellformed` – for every document of the generator's grammar (`ItemsWF`), i.e. a sequence of
   - prose lines (any line that is not a fence start: blank, text, headings, lines that merely
-    start with one or two backticks, `---` once content has started, …),
+    start with one or two backticks or with an inline code span of three or more, `---` once
+    content has started, …),
   - front-matter (`---`, lines, `---`) while no content has started (blank lines may precede it;
-    its YAML is opaque: `docCfgOk` accepts the text),
+    its YAML is opaque: `docCfgOk` accepts the text – the lines, each with its line ending),
   - foreign code blocks (language not a test language and not empty, fence of any length ≥ 3,
     body lines that do not start with the opening fence, closing line = any line that starts with
     the opening fence, e.g. a longer fence),
@@ -39,6 +40,16 @@ Proved here, for **all** documents (no bound on the number or length of lines, a
   foreign block or a scrut block without command anywhere behind the front-matter keeps the
   document parseable and changes neither the document configuration nor count, order and content
   of the tests (only line numbers and titles may move).
+
+* `C06_fence_iff_spec`, `C06_fence_is_ticks` – the lines the code takes for the start of a fenced
+  block are exactly the fence lines of the property (`isFenceLine`: three or more backticks, then
+  an info string **without backtick** in front of the inline configuration `{…}`), with the run
+  of backticks as the fence;
+* `C06_inline_code_span_not_fence`, `C06_inline_code_span_prose`, `C06_inline_code_span_inert`,
+  `C06_inline_code_span_like_prose`, `C06_prose_interchangeable` – a line that starts with an inline
+  code span ("```` ``` ```` is how three backticks are written") is a prose line: never a fence
+  opener, inert when inserted, and interchangeable with any other non-title, non-blank prose line
+  without any change of the result (titles and line numbers included);
 
 * `C06_wellformed_tail` – the same for documents whose **last construct is unterminated**: a
   sequence of well-formed items followed by a `Tail` – front-matter without the closing `---`
@@ -61,7 +72,7 @@ prose line and the lines behind it are ordinary items.
 
 Readings of the property that the code did not implement when this check first ran (harness
 classes `C06:state-leak`, `C06:bare-long-fence`, `C06:info-string-whitespace`,
-`C06:config-dropped`, `C06:expectation-before-command`) have been repaired by `fix:` commits; the
+`C06:config-dropped`, `C06:expectation-before-command`, `C06:inline-code-span-hides-tests`) have been repaired by `fix:` commits; the
 model follows the repaired code, the former witnesses are kept below as closed examples and in
 the harness stream `reading-witnesses`.
 -/
@@ -220,6 +231,80 @@ theorem C06_other_blocks_inert (env : Env) (pre post : List Item) (v : Fenced)
       ts'.map TestCase.core = ts.map TestCase.core :=
   insert_inert env pre post (.foreign v) rfl hnf wf hv
 
+/-! ## fence lines and inline code spans -/
+
+/-- **What the code takes for the start of a fenced block is what the property calls one**
+(`isFenceLine`, `Model/MarkdownSpec.lean`: three or more backticks, then an info string that holds
+no backtick in front of the inline configuration `{…}`): every other line – in particular a line that starts with an inline code span – is
+not a fence start. -/
+theorem C06_fence_iff_spec (l : Line) : extractCodeBlockStart l = .ok none ↔ isFenceLine l = false :=
+  fence_iff_spec l
+
+/-- … and the fence of a fence line is its run of backticks (which is what closes the block) -/
+theorem C06_fence_is_ticks (l bt language config : Line)
+    (h : extractCodeBlockStart l = .ok (some (bt, language, config))) :
+    isFenceLine l = true ∧ bt = fenceTicks l := by
+  refine ⟨?_, fencePure_fst l _ (fencePure_of h)⟩
+  rw [← fencePure_isSome_iff, fencePure_of h]
+  rfl
+
+/-- **A line that starts with an inline code span is never a fence opener** (fix "the info string
+of a fence holds no backtick in front of the inline configuration"): `n` backticks (any `n`, in
+particular `n ≥ 3`), then text that does not start with a backtick and contains one in front of its
+first `{` (`hbt`; a backtick behind a `{` belongs to the inline configuration of a fence line, see
+`C06_backtick_in_config_is_fence`).  Before the fix such a line with `n ≥ 3` opened a
+verbatim block that hid every test up to the next line starting with `n` backticks, or to the end
+of the document. -/
+theorem C06_inline_code_span_not_fence (n : Nat) (c : Char) (rest : Line) (hc : c ≠ '`') (hbt : '`' ∈ (c :: rest).takeWhile (· ≠ '{')) :
+    extractCodeBlockStart (List.replicate n '`' ++ c :: rest) = .ok none :=
+  inline_span_not_fence n c rest hc hbt
+
+/-- … it is a well-formed prose item at every position of a document -/
+theorem C06_inline_code_span_prose (env : Env) (cs : Bool) (n : Nat) (hn : 1 ≤ n) (c : Char) (rest : Line)
+    (hc : c ≠ '`') (hbt : '`' ∈ (c :: rest).takeWhile (· ≠ '{')) :
+    Item.WF env cs (.prose (List.replicate n '`' ++ c :: rest)) := by
+  refine ⟨inline_span_not_fence n c rest hc hbt, fun _ h => ?_⟩
+  obtain ⟨m, rfl⟩ : ∃ m, n = m + 1 := ⟨n - 1, by omega⟩
+  simp [List.replicate_succ, frontMatterFence] at h
+
+/-- **… and at document level it is a prose line like any other**: in a well-formed document, a
+prose line `p` that is not a title line and not blank (a list item, a quote, …) can be replaced by
+the inline-code-span line – the result of parsing is *identical*: same document configuration, same
+tests with the same shell expressions, expectations, exit codes, configurations, titles and line
+numbers.  Nothing is created, hidden or truncated.  (`isLetter '`' = false`: a backtick is not in
+`\p{L}`.) -/
+theorem C06_inline_code_span_like_prose (env : Env) (hl : env.isLetter '`' = false)
+    (pre post : List Item) (p : Line) (n : Nat) (hn : 1 ≤ n) (c : Char) (rest : Line)
+    (hc : c ≠ '`') (hbt : '`' ∈ (c :: rest).takeWhile (· ≠ '{'))
+    (hpt : extractTitle env.isLetter p = none) (hpb : (trim p).isEmpty = false)
+    (wf : ItemsWF env false (pre ++ .prose p :: post)) :
+    parseLines env (render (pre ++ .prose (List.replicate n '`' ++ c :: rest) :: post))
+      = parseLines env (render (pre ++ .prose p :: post)) := by
+  obtain ⟨h1, h2⟩ := inline_span_no_title env hl n hn (c :: rest)
+  exact replace_prose env pre post p _ (by rw [hpt, h1]) (by rw [hpb, h2])
+    (C06_inline_code_span_prose env _ n hn c rest hc hbt) wf
+
+/-- the general form: two prose lines that agree in "is a title line" and "is blank" are
+interchangeable -/
+theorem C06_prose_interchangeable (env : Env) (pre post : List Item) (p q : Line)
+    (ht : extractTitle env.isLetter p = extractTitle env.isLetter q)
+    (hb : (trim p).isEmpty = (trim q).isEmpty)
+    (hq : Item.WF env (csAfterAll false pre) (.prose q))
+    (wf : ItemsWF env false (pre ++ .prose p :: post)) :
+    parseLines env (render (pre ++ .prose q :: post)) = parseLines env (render (pre ++ .prose p :: post)) :=
+  replace_prose env pre post p q ht hb hq wf
+
+/-- … inserted into a document it changes neither the document configuration nor count, order and
+content of the tests (`C06_prose_inert` with its hypothesis discharged) -/
+theorem C06_inline_code_span_inert (env : Env) (pre post : List Item) (n : Nat) (hn : 1 ≤ n) (c : Char)
+    (rest : Line) (hc : c ≠ '`') (hbt : '`' ∈ (c :: rest).takeWhile (· ≠ '{'))
+    (hnf : noFront post = true) (wf : ItemsWF env false (pre ++ post)) :
+    ∃ ts ts', parseLines env (render (pre ++ post)) = .ok { docConfigs := docTexts (pre ++ post), tests := ts } ∧
+      parseLines env (render (pre ++ .prose (List.replicate n '`' ++ c :: rest) :: post))
+        = .ok { docConfigs := docTexts (pre ++ post), tests := ts' } ∧
+      ts'.map TestCase.core = ts.map TestCase.core :=
+  insert_inert env pre post _ rfl hnf wf (C06_inline_code_span_prose env _ n hn c rest hc hbt)
+
 /-! ## non-vacuity and witnesses -/
 
 /-- an environment for closed examples: ASCII letters, every expectation and YAML text accepted -/
@@ -372,5 +457,41 @@ around the language and after the configuration is ignored. -/
 theorem C06_info_string_whitespace :
     extractCodeBlockStart ['`', '`', '`', ' ', 's', 'c', 'r', 'u', 't', ' ', '{', 'a', '}', ' ']
       = .ok (some (['`', '`', '`'], ['s', 'c', 'r', 'u', 't'], ['{', 'a', '}'])) := by rfl
+
+/-- Repaired by the fix "the info string of a fence holds no backtick" (was harness class
+`C06:inline-code-span-hides-tests`): the prose line "```` ``` ```` x" (three backticks written as
+an inline code span) is not a fence opener … -/
+theorem C06_inline_code_span_example :
+    extractCodeBlockStart "```` ``` ```` x".toList = .ok none := by rfl
+
+example : isFenceLine "```` ``` ```` x".toList = false := by rfl
+example : isFenceLine "````scrut {a}".toList = true ∧ fenceTicks "````scrut {a}".toList = "````".toList := by
+  constructor <;> rfl
+/-- the other lines of the harness' alphabet -/
+example : extractCodeBlockStart "```a`b".toList = .ok none := by rfl
+example : extractCodeBlockStart "``` `x` ```".toList = .ok none := by rfl
+example : extractCodeBlockStart "````` ```` `".toList = .ok none := by rfl
+/-- a brace BEHIND the backtick does not make it a fence line -/
+example : extractCodeBlockStart "```` ``` ```` {x}".toList = .ok none := by rfl
+/-- it is an instance of `C06_inline_code_span_not_fence` -/
+example : "```` ``` ```` x".toList = List.replicate 4 '`' ++ ' ' :: "``` ```` x".toList := by rfl
+example : '`' ∈ (' ' :: "``` ```` x".toList).takeWhile (· ≠ '{') := by decide
+example : '`' ∈ (' ' :: "``` ```` {x}".toList).takeWhile (· ≠ '{') := by decide
+
+/-- A backtick inside the inline configuration (behind the first `{`) is part of the configuration:
+the line is a fence line with that configuration (C17: `{environment: {K: "`"}}` is read back).
+Between the first fix (any backtick behind the fence) and its follow-up this line was prose. -/
+theorem C06_backtick_in_config_is_fence :
+    extractCodeBlockStart "```scrut {environment: {K: \"`\"}}".toList
+      = .ok (some ("```".toList, "scrut".toList, "{environment: {K: \"`\"}}".toList)) := by rfl
+
+/-- … and the test behind it is read (before the fix: no test, the rest of the document was the
+body of an unterminated verbatim block of language "```") -/
+theorem C06_inline_code_span_document :
+    parseLines envAll
+      ["# T".toList, "```` ``` ```` x".toList, "```scrut".toList, "$ x".toList, "o".toList, "```".toList]
+    = .ok { docConfigs := [], tests :=
+        [{ title := ['T'], command := [['x']], exitCode := none, expectations := [['o']],
+           lineNumber := 4, config := some none }] } := by rfl
 
 end Scrut.Props.C06
